@@ -43,6 +43,7 @@ pub broadcast group group_spec_seq {
     crate::vf_prelude::group_be,
     crate::vf_prelude::axiom_chars_bytes_utf8,
     crate::vf_prelude::axiom_borrow_view_vec,
+    crate::vf_prelude::axiom_vec_len_isize,
     crate::vf_prelude::axiom_borrow_view_slice_ref,
 }
 
@@ -417,6 +418,51 @@ pub open spec fn msg_eq(a: MsgV, b: MsgV) -> bool {
 pub open spec fn spec_enc_message(m: MsgV) -> Seq<u8> {
     match m { MsgV::Control(c) => spec_enc_control(c, 2), MsgV::Data(d) => spec_enc_data(d, 2) }
 }
+
+
+// =====================================================================================================
+// Hidden AVP values (RFC 2661 §4.3).  MD5 is uninterpreted (crate::md5::spec_md5): the construction is
+// specified for any 16-octet hash.
+pub open spec fn md5s(x: Seq<u8>) -> Seq<u8> { crate::md5::spec_md5(x) }
+pub open spec fn xor_block(a: Seq<u8>, k: Seq<u8>) -> Seq<u8> { Seq::new(16, |j: int| a[j] ^ k[j]) }
+// i-th ciphertext block: c_0 = p_0 xor MD5(type ++ secret ++ rv);  c_i = p_i xor MD5(secret ++ c_{i-1})
+pub open spec fn cblock(p: Seq<u8>, t: Seq<u8>, secret: Seq<u8>, rv: Seq<u8>, i: int) -> Seq<u8>
+    decreases i,
+{
+    if i <= 0 { xor_block(p.subrange(0, 16), md5s(t + secret + rv)) }
+    else { xor_block(p.subrange(16 * i, 16 * i + 16), md5s(secret + cblock(p, t, secret, rv, i - 1))) }
+}
+pub open spec fn encrypt(p: Seq<u8>, t: Seq<u8>, secret: Seq<u8>, rv: Seq<u8>) -> Seq<u8> {
+    Seq::new(p.len(), |k: int| cblock(p, t, secret, rv, k / 16)[k % 16])
+}
+// plaintext: original-length subfield (6 + |value|), value, length padding, then just enough alignment padding
+pub open spec fn spec_hide_plain(payload: Seq<u8>, lp: Seq<u8>, ap: Seq<u8>) -> Seq<u8> {
+    let body = enc16(6 + payload.len() as int) + payload + lp;
+    let pad = (16 - body.len() % 16) % 16;
+    body + ap.take(pad)
+}
+pub open spec fn spec_hide_value(kind: int, payload: Seq<u8>, secret: Seq<u8>, rv: Seq<u8>, lp: Seq<u8>, ap: Seq<u8>) -> Seq<u8> {
+    encrypt(spec_hide_plain(payload, lp, ap), enc16(kind), secret, rv)
+}
+// decryption keys use ciphertext blocks
+pub open spec fn dkey(c: Seq<u8>, t: Seq<u8>, secret: Seq<u8>, rv: Seq<u8>, i: int) -> Seq<u8> {
+    if i <= 0 { md5s(t + secret + rv) } else { md5s(secret + c.subrange(16 * (i - 1), 16 * i)) }
+}
+pub open spec fn decrypt(c: Seq<u8>, t: Seq<u8>, secret: Seq<u8>, rv: Seq<u8>) -> Seq<u8> {
+    Seq::new(c.len(), |k: int| c[k] ^ dkey(c, t, secret, rv, k / 16)[k % 16])
+}
+pub open spec fn spec_reveal(kind: int, c: Seq<u8>, secret: Seq<u8>, rv: Seq<u8>) -> RecV {
+    if c.len() == 0 || c.len() % 16 != 0 { RecV::Err(None) }
+    else {
+        let p = decrypt(c, enc16(kind), secret, rv);
+        let total = be16(p);
+        if total < 6 || total > 1023 || total - 6 > p.len() - 2 { RecV::Err(None) }
+        else { spec_decode_avp(kind, p.skip(2).take(total - 6)) }
+    }
+}
+pub proof fn lemma_av_kind_range(a: crate::avp::AVP)
+    ensures 0 <= a.av().kind < 65536,
+{ }
 
 } // verus!
 } // mod vf_spec
